@@ -341,7 +341,6 @@ func (cp *chunkPrim) sites(db *SiteDB) []*Site {
 func c11Primitives(r *Run, m *ServerModel) {
 	info := m.Info
 	db := m.DB
-	norm := func(e ast.Expr) string { return strings.ReplaceAll(r.L.str(e), " ", "") }
 	var raP, waP *chunkPrim
 	if o := r.mustFunc("r5", "p9", "clientFile.ReadAt"); o != nil {
 		if raP = chunkPrimOf(r, m, o); raP == nil {
@@ -354,6 +353,7 @@ func c11Primitives(r *Run, m *ServerModel) {
 		}
 	}
 	if ra := raP; ra != nil {
+		norm := func(e ast.Expr) string { return m.rnorm(ra.owner, e) }
 		recv, pN, offN := ra.recv, ra.pN, ra.offN
 		var treadOK, rreadOK bool
 		rreadVar := ""
@@ -417,6 +417,7 @@ func c11Primitives(r *Run, m *ServerModel) {
 		r.check(okLen, "r5", "readAt: returns the number of bytes received", ra.fn.Pos(), "return len(Data), nil otherwise", "readAt does not return (len(Data), nil) on the remaining paths")
 	}
 	if wa := waP; wa != nil {
+		norm := func(e ast.Expr) string { return m.rnorm(wa.owner, e) }
 		recv, pN, offN := wa.recv, wa.pN, wa.offN
 		okReq := false
 		rwVar := ""
